@@ -1104,9 +1104,20 @@ func callBuiltin(caller *frame, callpos token.Pos, fn *ssa.Builtin, args []value
 
 	case "ssa:deferstack":
 		return &caller.defers
+
+	// unsafe.{SliceData,StringData,String,Slice}: a "pointer to the first element" is represented by the element vector itself
+	case "SliceData":
+		return args[0]
+	case "StringData":
+		return []value(toSymstr(args[0]))
+	case "String":
+		return mkString(elemVector(args[0], int(caller.i.x.concretize(args[1]))))
+	case "Slice":
+		return elemVector(args[0], int(caller.i.x.concretize(args[1])))
 	}
 
-	panic("unknown built-in: " + fn.Name())
+	caller.i.x.abort(AbortUnmodelled, "unknown built-in: %s", fn.Name())
+	return nil
 }
 
 func rangeIter(x value, t types.Type) iter {
@@ -1501,4 +1512,20 @@ func fandbits[F floaty](x, y F) F {
 		*(*uint64)(unsafe.Pointer(&x)) &= *(*uint64)(unsafe.Pointer(&y))
 	}
 	return x
+}
+
+// elemVector: the n elements starting at p, where p is either an element vector (from SliceData/StringData) or the
+// address of an element of one (&b[0]); element vectors are contiguous []value in the interpreter, so the latter is
+// exactly unsafe.Slice on the interpreter's own memory.
+func elemVector(p value, n int) []value {
+	switch p := p.(type) {
+	case []value:
+		return p[:n]
+	case *value:
+		if n == 0 || p == nil {
+			return nil
+		}
+		return unsafe.Slice(p, n)
+	}
+	panic(fmt.Sprintf("elemVector: %T", p))
 }
